@@ -18,6 +18,9 @@
       envelope).
   Loop bounds, the sequence-number rule, the Send Message command id and the slice of the
   returned data come from Gen/Loops04.lean (regenerated from the source on every run).
+  The control flow itself is tied too: `Shape.rmcp` at the end of this file is the Python function,
+  statement by statement, each annotated with the definition here that mirrors it; the translator
+  regenerates the same value from the working tree and `Props.C04.source_shape_rmcp` demands equality.
 
   Core Lean only.  All recursion is structural (on the queue, the event list, the budgets), so
   the model is total by construction and `decide` can run it.
